@@ -388,6 +388,40 @@ static void run_history(const History& h, vr::Ctx& ctx, uint64_t& steps)
         if (!ok)
             ctx.violation("c08:server-does-not-serve-a-fresh-connection-afterwards", d + "\"response\":" + vr::jstr(vr::show(probe.received.substr(0, 80))) + "}");
     }
+    // ... and must still reap a connection that stays silent: answered 408 and closed by the idle time-out (1 s, scanned
+    // every 500 ms), told to the handler, everything released again (whatever the history left behind for that
+    // descriptor number)
+    {
+        sim::ClientConn silent;
+        if (silent.connect_to(r.srv.port))
+        {
+            sim::await_readiness();
+            steps += sim::settle();
+            size_t discBefore = 0;
+            for (auto& e : gLog)
+                discBefore += e.kind == E_DISC;
+            int waited = 0;
+            for (; waited < 2500 && !silent.peerClosed; waited += 500)
+            {
+                sim::tick(500);
+                steps += sim::settle();
+                silent.pump();
+            }
+            size_t discAfter = 0;
+            for (auto& e : gLog)
+                discAfter += e.kind == E_DISC;
+            std::string dd = d + "\"waited_ms\":" + std::to_string(waited) + ",\"received\":" + vr::jstr(vr::show(silent.received.substr(0, 40))) + ",\"closed_by_server\":" + (silent.peerClosed ? "true" : "false") + "}";
+            if (!silent.peerClosed || silent.received.compare(0, 12, "HTTP/1.1 408") != 0)
+                ctx.violation("c08:silent-connection-afterwards-not-reaped-by-the-idle-time-out", dd);
+            else if (discAfter != discBefore + 1)
+                ctx.violation("c08:silent-connection-afterwards:disconnection-not-told-exactly-once", dd);
+            silent.close_orderly();
+            sim::await_readiness();
+            steps += sim::settle();
+            if (sim::list_fds().size() != r.baselineFds)
+                ctx.violation("c08:silent-connection-afterwards:descriptors-not-back-at-baseline", dd);
+        }
+    }
     if (sim::S().livelock)
         ctx.violation("c08:busy-wait-observed", d + "\"x\":0}");
     bool stopped = r.srv.stop();
